@@ -16,16 +16,16 @@
 /// logic.
 
 #[test]
-fn kani_concrete_playback_c18_restart_clock_regress_witness_9849994000913201324() {
+fn kani_concrete_playback_c18_restart_clock_regress_witness_9430928690219793070() {
     let concrete_vals: Vec<Vec<u8>> = vec![
-        // 6007505711097ul
-        vec![249, 111, 62, 187, 118, 5, 0, 0],
+        // 6007504220160ul
+        vec![0, 176, 39, 187, 118, 5, 0, 0],
         // 0
         vec![0, 0],
         // 65535
         vec![255, 255],
-        // 6007505711096ul
-        vec![248, 111, 62, 187, 118, 5, 0, 0],
+        // 6007501598720ul
+        vec![0, 176, 255, 186, 118, 5, 0, 0],
     ];
     kani::concrete_playback_run(concrete_vals, c18_restart_clock_regress_witness);
 }
